@@ -8,10 +8,11 @@
 (*   MC   : Init = every (operands, family, index policy, column policy); one INVARIANT a clause *)
 (*   S2C  : InitGen = every (operands, family); EvalGen prints the operands with the outcome     *)
 (*          expected for every operator x index policy x column policy                          *)
-EXTENDS Series, TLC, Json
+EXTENDS OpsLaw, TLC, Json
 CONSTANTS NS,       \* series over timestamps 1..NS: pairs (and series x scalar)
           NT,       \* triples of series over 1..NT  (0 = none)
-          NF        \* frames over 1..NF (0 = none): frame x frame, frame x series, frame x one-column frame
+          NF,       \* frames over 1..NF (0 = none): frame x frame, frame x series, frame x one-column frame
+          Fill      \* generator only: TRUE = the pairs under every fill method but none (OpsLaw.tla), FALSE = method none
 
 VARIABLES xs, fam, join, colpol, done
 vars == <<xs, fam, join, colpol, done>>
@@ -58,11 +59,19 @@ OpsFor(f, ys) ==
     IF f = "arith" THEN (IF Len(ys) = 2 THEN (BinOps \ {"pow"}) \cup (IF PowOK(ys) THEN {"pow"} ELSE {}) ELSE {"add", "mul", "min", "max"})
     ELSE (IF Len(ys) = 2 THEN {"add"} ELSE {"add", "mul", "min", "max"})
 AggsFor(f, ys) == IF f = "agg" THEN AggOps ELSE {}
-Expect(op, j, cp) == [op |-> op, join |-> j, cols |-> cp,
-                      out |-> SetToSeq(IF op \in AggOps THEN {Agg(op, xs, cp)} ELSE OpOutcomes(op, xs, j, cp))]
-EvalGen == Eval /\ PrintT(ToJson([xs |-> xs, fam |-> fam,
-              exp |-> SetToSeq(UNION {{Expect(op, j, cp) : j \in Joins, cp \in {c \in ColPolsOf(xs) : ColsPinned(op, xs, c)}} : op \in OpsFor(fam, xs)}
-                               \cup {Expect(op, "oj", cp) : op \in AggsFor(fam, xs), cp \in ColPolsOf(xs)})]))
+\* an expectation: operator, policies, fill method, calling form ("" = every form the driver knows) and the admissible outcomes
+Expect(op, j, cp, m, form, outs) == [op |-> op, join |-> j, cols |-> cp, m |-> m, form |-> form, out |-> SetToSeq(outs)]
+PinnedPols(op) == {c \in ColPolsOf(xs) : OpsColsPinned(op, xs, c)}
+PlainExp == UNION {{Expect(op, j, cp, "none", "", OpsOutcomes(op, xs, j, cp, "none")) : j \in Joins, cp \in PinnedPols(op)} : op \in OpsFor(fam, xs)}
+AggExp   == {Expect(op, "oj", cp, "none", "", {Agg(op, xs, cp)}) : op \in AggsFor(fam, xs), cp \in ColPolsOf(xs)}
+\* sub_ / div_ with a LIST on one side: three operands, handed over as (a, [b1, b2]) or ([a1, a2], b)
+CutsFor(f, ys) == IF Len(ys) # 3 THEN {} ELSE IF f = "arith" THEN {op \in {"sub", "div"} : OpsCutDomain(op, ys)} ELSE {"sub"}
+CutForms == {<<"a_list", 1>>, <<"list_b", 2>>}
+CutExp   == UNION {{Expect(op, j, cp, "none", fm[1], OpsCutOutcomes(op, xs, fm[2], j, cp)) : j \in Joins, cp \in PinnedPols(op), fm \in CutForms} : op \in CutsFor(fam, xs)}
+\* the pairs under every fill method
+FillExp  == IF Len(xs) # 2 THEN {}
+            ELSE UNION {{Expect(op, j, cp, m, "", OpsOutcomes(op, xs, j, cp, m)) : j \in Joins, cp \in PinnedPols(op), m \in OpsMethods \ {"none"}} : op \in OpsFor(fam, xs)}
+EvalGen == Eval /\ PrintT(ToJson([xs |-> xs, fam |-> fam, exp |-> SetToSeq(IF Fill THEN FillExp ELSE PlainExp \cup AggExp \cup CutExp)]))
 
 \* ---- the clauses of C08 on the law-level operators ---------------------------------------------
 Pair == Len(xs) = 2
@@ -71,6 +80,7 @@ B == xs[2]
 TimesOf(o) == IF IsScalar(o) THEN {} ELSE Times(o)
 ResCells(r) == CellsOf(r)
 Pinned(op) == ColsPinned(op, xs, colpol)
+OpsPinned(op) == OpsColsPinned(op, xs, colpol)
 \* same index, same values (a one-column frame and a series with the same values are the same data)
 SameData(r, a) == IF IsMulti(a) THEN r = a
                   ELSE IF IsScalar(a) THEN r = a
@@ -129,4 +139,45 @@ SumIsAdd == (done /\ fam = "agg" /\ \E i \in 1..Len(xs) : IsTs(xs[i])) =>
         cell(q, c, x) == IF IsS(q) THEN SVal(q, x) ELSE FVal(q, c, x)
     IN  \A x \in Times(s) : \A c \in (IF IsS(s) THEN {""} ELSE Cols(s)) :
             (\A i \in 1..Len(xs) : IsV(OVal(xs[i], c, x)) /\ (IsMulti(xs[i]) => c \in Cols(xs[i]))) => cell(s, c, x) = cell(r, c, x)
+\* ---- the clauses on the operators of OpsLaw.tla (fill methods, comparisons with no data, lists of denominators) ----
+\* without a fill method OpsLaw is Series, wherever Series pins the result down
+OpsAgrees == done => \A op \in OpsFor(fam, xs) : Pinned(op) => OpsReduce(op, xs, join, colpol, "none", "row") = Reduce(op, xs, join, colpol)
+ResCell(r, c, x) == IF IsS(r) THEN SVal(r, x) ELSE FVal(r, c, x)
+ResCols(r) == IF IsS(r) THEN {""} ELSE Cols(r)
+\* every comparison in which an aligned operand has no data (NaN in the data, a timestamp only the other operand has,
+\* a column only the other frame has) is false, under every fill method; where both have data a >= b is "not a < b"
+CmpNoData == (done /\ Pair /\ "gt" \in OpsFor(fam, xs) /\ ~(IsScalar(A) /\ IsScalar(B))) =>
+    \A m \in OpsMethods : \A rd \in Readings :
+        LET I  == OpIndex(join, A, B)
+            a2 == OpsAlign(A, I, m, rd)
+            b2 == OpsAlign(B, I, m, rd)
+            res(op) == OpsBinOp(op, A, B, join, colpol, m, rd)
+        IN  \A x \in I : \A c \in ResCols(res("ge")) :
+                LET u == OpsSide("ge", a2, c, x)  w == OpsSide("ge", b2, c, x) IN
+                IF IsNaN(u) \/ IsNaN(w)
+                THEN \A op \in OpsCmp : ResCell(res(op), c, x) = VBool(FALSE)
+                ELSE /\ ResCell(res("ge"), c, x) = VBool(ResCell(res("lt"), c, x) = VBool(FALSE))
+                     /\ ResCell(res("le"), c, x) = VBool(ResCell(res("gt"), c, x) = VBool(FALSE))
+\* a number as fill method leaves no gap: the sum of two timeseries has a value at every timestamp of the joint index
+FillNumber == (done /\ Pair /\ IsTs(A) /\ IsTs(B) /\ "add" \in OpsFor(fam, xs)) =>
+    \A m \in {"v0", "v1"} : \A y \in ResCells(OpsBinOp("add", A, B, join, colpol, m, "row")) : IsV(y)
+\* as-of fill: at a timestamp both operands have with data nothing is filled (the plain cell), and nothing is ever infinite
+FillAsOf == (done /\ Pair /\ ~(IsScalar(A) /\ IsScalar(B))) =>
+    \A m \in OpsMethods : \A rd \in Readings : \A op \in OpsFor(fam, xs) \ {"pow"} : OpsPinned(op) =>
+        LET r == OpsBinOp(op, A, B, join, colpol, m, rd)
+            p == OpsBinOp(op, A, B, join, colpol, "none", rd)
+        IN  /\ Times(r) = OpIndex(join, A, B)
+            /\ \A y \in ResCells(r) : Tag(y) \in {"f", "nan", "b"}
+            /\ \A x \in Times(r) : \A c \in ResCols(r) :
+                   (~IsNaN(OpsSide(op, A, c, x)) /\ ~IsNaN(OpsSide(op, B, c, x)) /\ (IsTs(A) => x \in Times(A)) /\ (IsTs(B) => x \in Times(B)))
+                       => ResCell(r, c, x) = ResCell(p, c, x)
+\* division by zero yields NaN also when the zero arrives by the fill method or stands in a LIST of denominators
+DivZeroFilled == (done /\ Pair /\ IsTs(B) /\ "div" \in OpsFor(fam, xs)) =>
+    \A m \in OpsMethods : \A rd \in Readings :
+        LET r  == OpsBinOp("div", A, B, join, colpol, m, rd)
+            b2 == OpsAlign(B, Times(r), m, rd)
+        IN  \A x \in Times(r) : \A c \in ResCols(r) : OpsSide("div", b2, c, x) = Zero => IsNaN(ResCell(r, c, x))
+DivListZero == (done /\ Len(xs) = 3 /\ "div" \in CutsFor(fam, xs) /\ \A i \in 1..3 : IsS(xs[i])) =>
+    \A nl \in {1, 2} : \A r \in OpsCutOutcomes("div", xs, nl, join, colpol) :
+        \A x \in Times(r) : (\E i \in (nl + 1)..3 : SVal(xs[i], x) = Zero) => IsNaN(SVal(r, x))
 =============================================================================
